@@ -1,5 +1,5 @@
 SPECIFICATION Spec
-CONSTANTS Configs <- CfgCap1 AddProgs <- P21 NClosers = 0 AllowCancel = FALSE ConsKinds <- Prompt MaxNow = 2
+CONSTANTS Configs <- CfgOnlyCap1 AddProgs <- P21 NClosers = 0 AllowCancel = FALSE ConsKinds <- Prompt MaxNow = 0
   AdvIdleOnly = FALSE UseMonitor = TRUE CloseFix = TRUE Variant = "capeq"
 INVARIANTS MonitorOK
 CHECK_DEADLOCK FALSE
